@@ -1,6 +1,6 @@
 (* C07: k-mer counting is exact and independent of threads, chunking and partitioning. *)
 From Coq Require Import NArith ZArith List.
-From KT Require Import Gen.Generated Gen.Alphabet Gen.GeneratedFacts Model.Kmer Model.Ops Model.Rows Model.Pipeline Proof.CountSched Proof.Merge Proof.CountProof.
+From KT Require Import Gen.Generated Gen.Alphabet Gen.FactsBase Gen.FactLetters Gen.FactTableKmer Model.Kmer Model.Ops Model.Rows Model.Pipeline Proof.CountSched Proof.Merge Proof.CountProof.
 From KT Require Import Model.Show Model.Fs Model.CtrFs Proof.CtrFsProof Proof.CountLive Proof.PassesProof.
 Import ListNotations.
 Open Scope N_scope.
